@@ -141,7 +141,15 @@ inductive LoadRes where
   | blocks (bs : List Blk) | reorg | err | panic | scriptEnd
   deriving Repr
 
-/-- `load`: fetch all partitions (any failure fails the load), sort, compare the parent link -/
+/-- the merged partitions form one chain: every block that carries a parent hash names the hash of
+    the block before it (32 bytes = 64 hex digits; blocks of plans without headers carry none) -/
+def linked : List Blk → Bool
+  | a :: b :: rest =>
+    (b.parent.length != 64 || a.hash.length != 64 || b.parent == a.hash) && linked (b :: rest)
+  | _ => true
+
+/-- `load`: fetch all partitions (any failure fails the load), sort, check that the partitions link
+    up with each other, compare the parent link of the first block with the recorded hash -/
 def load (t : Task) (s : St) (localHash : String) (start limit : Nat) : LoadRes × St :=
   let rec go : List (Nat × Nat) → St → List Blk → Bool → Bool → (List Blk × Bool × Bool × St)
     | [], s, acc, e, se => (acc, e, se, s)
@@ -158,7 +166,8 @@ def load (t : Task) (s : St) (localHash : String) (start limit : Nat) : LoadRes 
     match bs with
     | [] => (.panic, s')                                   -- blocks[0] on an empty slice
     | first :: _ =>
-      if first.parent.length == 64 && first.parent != localHash then (.reorg, s')   -- 32 bytes = 64 hex digits
+      if !linked bs then (.err, s')                         -- partitions from different forks
+      else if first.parent.length == 64 && first.parent != localHash then (.reorg, s')   -- 32 bytes = 64 hex digits
       else (.blocks bs, s')
 
 structure Result where
